@@ -253,6 +253,19 @@ Theorem C17_mismatch_zones : forall f p p' ft rest,
 Proof. exact frame_unpack_props_mismatch. Qed.
 Print Assumptions C17_mismatch_zones.
 
+(* the non-negativity hypotheses cannot be dropped (the audit's statement without them is false):
+   insert-zone size (s - L) and FECF size (F + L), L the buffer length, reproduce the frame
+   exactly through Python's negative slice bounds.  Same on the implementation (replayed):
+   frame c00106e6000e000909e00102030506, VarFrameProperties(insert_zone_len=-13, fecf_len=17)
+   returns insert zone 0909, data zone 010203, FECF 0506. *)
+Theorem C17_mismatch_zones_negative_refuted :
+  exists f p p', frame_consistent f /\ frame_len_set f /\ props_match f p /\
+    iz_present p' = true /\ iz_present p = true /\ iz_size p' <> iz_size p /\
+    fecf_present p' = true /\ fecf_present p = true /\ fecf_size p' <> fecf_size p /\
+    frame_unpack (frame_layout (hdr_layout (hdr f)) f) (ftype_of_rule (rules (ftfdf f))) p' = Ok (frame_norm f).
+Proof. exact frame_unpack_zones_mismatch_negative_refuted. Qed.
+Print Assumptions C17_mismatch_zones_negative_refuted.
+
 (* when unpack does fail on the octets of a packed frame under parameters of the right class, the
    error is UslpInvalidRawPacketOrFrameLen or UslpInvalidConstructionRules, nothing else *)
 Theorem C17_mismatch_error_class : forall f p' rest x,
